@@ -14,9 +14,10 @@ EXTENDS Engine, Json, SequencesExt
 
 CONSTANTS Variant,    \* "ref" | "built"
           Loadables,  \* set of [n |-> name, def |-> definition]
-          OpKinds,    \* subset of {"Load","Render","Get","Validate","Remove","Clear","SetBasePath"}
-          ArgNames,   \* names offered as argument of Render / Get / Validate / Remove
-          Entries,    \* entry points offered for Render: subset of {"doc", "tpl"}
+          OpKinds,    \* subset of {"Load","Render","Get","Validate","Remove","Clear","SetBasePath","Analyze"}
+          ArgNames,   \* names offered as argument of Render / Get / Validate / Remove / Analyze
+          Entries,    \* entry points offered for Render: subset of {"doc", "tpl", "rnd"}
+          RDatas,     \* data offered for Render (a subset of Datas)
           MaxLoads,   \* bound on the number of load calls (MC only)
           Depth       \* behaviour length for generation
 
@@ -42,6 +43,13 @@ PoolQuick == PoolTiny \cup
               L("A",    D("doc", "DA", "base", B12,    FALSE)),
               L("G",    D("str", "GA", "A",    {"b2"}, FALSE)) }
 
+\* the TemplateRenderer front: templates loaded from .docx files (alone, next to / replaced by
+\* templates loaded through the engine API, as base of a string child)
+PoolFile == { L("base", D("file", "RF", "",     {"b1"}, TRUE)),
+              L("A",    D("file", "FA", "base", B12,    FALSE)),
+              L("base", D("doc",  "RD", "",     {"b1"}, TRUE)),
+              L("A",    D("str",  "CA", "base", {"b1"}, FALSE)) }
+
 PoolThorough == PoolQuick \cup
             { L("base", D("str", "R2", "",     B12,    TRUE)),
               L("base", D("str", "S",  "base", {"b2"}, FALSE)),   \* extends the template it replaces
@@ -51,19 +59,31 @@ PoolThorough == PoolQuick \cup
               L("G",    D("str", "GB", "A",    {"b1"}, FALSE)),
               L("G",    D("doc", "DG", "B",    B12,    FALSE)) }
 
-Data1 == [v |-> "val1", items |-> <<"n1", "n2">>, c |-> TRUE]
-Data2 == [v |-> "val2", items |-> <<>>, c |-> FALSE]
+PoolAll == PoolThorough \cup PoolFile
+
+Dt(v, items, c, ik) == [v |-> v, items |-> items, c |-> c, ik |-> ik]
+Data1 == Dt("val1", <<"n1", "n2">>, TRUE, "map")
+Data2 == Dt("val2", <<>>, FALSE, "map")
 \* the variables of the probe data with other conditions and lists (a render must not be keyed on its variables alone)
-Data3 == [v |-> "val1", items |-> <<>>, c |-> FALSE]
-Datas == {Data1, Data2, Data3}
+Data3 == Dt("val1", <<>>, FALSE, "map")
+\* list items that are not map[string]interface{}, or maps that lack the field used (undocumented kinds: the judge demands
+\* repeatability and untouched data of their renders, not a text)
+DataS == Dt("val2", <<"s1", "s2">>, TRUE, "smap")
+DataP == Dt("val1", <<"p1">>, FALSE, "str")
+DataK == Dt("val2", <<"k1">>, TRUE, "nokey")
+Datas == {Data1, Data2, Data3, DataS, DataP, DataK}
+DatasStd  == {Data2}
+DatasKeys == {Data2, Data3}
+DatasKinds == {Data2, DataS, DataK}
+
+ASSUME \A l \in Loadables : \A i \in 1..Len(Tbls(l.def)) : WellFormedTbl(Tbls(l.def)[i])
 
 \* ---- operations offered -------------------------------------------------------
 Ops ==
      (IF "Load" \in OpKinds THEN {[op |-> "Load", n |-> l.n, def |-> l.def] : l \in Loadables} ELSE {})
   \cup (IF "Render" \in OpKinds
-        THEN {[op |-> "Render", n |-> n, e |-> e, data |-> Data2] : n \in ArgNames, e \in Entries}
-             \cup {[op |-> "Render", n |-> n, e |-> e, data |-> Data3] : n \in ArgNames, e \in Entries \cap {"tpl"}} ELSE {})
-  \cup {[op |-> k, n |-> n] : k \in OpKinds \cap {"Get", "Validate", "Remove"}, n \in ArgNames}
+        THEN {[op |-> "Render", n |-> n, e |-> e, data |-> d] : n \in ArgNames, e \in Entries, d \in RDatas} ELSE {})
+  \cup {[op |-> k, n |-> n] : k \in OpKinds \cap {"Get", "Validate", "Remove", "Analyze"}, n \in ArgNames}
   \cup {[op |-> k] : k \in OpKinds \cap {"Clear", "SetBasePath"}}
 
 ShowsOf(s, h) == IF Variant = "ref" THEN Shows(s, NamePool, ProbeData) ELSE ShowsB(h, NamePool, ProbeData)
@@ -97,9 +117,14 @@ Inv_ShowsPure == shows = Shows(st, NamePool, ProbeData)
 
 \* every render call returns the pure function of the cached value, for every data and entry point
 Inv_RenderPure ==
-  \A n \in NamePool, e \in {"doc", "tpl"}, d \in Datas :
+  \A n \in NamePool, e \in {"doc", "tpl", "rnd"}, d \in Datas :
      LET op == [op |-> "Render", n |-> n, e |-> e, data |-> d]
      IN RenderV(op) = PureRender(Lookup(st.cache, n), d, e)
+
+\* the renderer front adds nothing of its own: it shows what the engine's RenderTemplateToDocument shows
+Inv_FrontAgnostic ==
+  \A n \in NamePool, d \in Datas :
+     PureRender(Lookup(st.cache, n), d, "rnd") = PureRender(Lookup(st.cache, n), d, "tpl")
 
 \* the two machines agree on which object/value is cached under which name
 Inv_CacheAgree == \A n \in NamePool : IdOf(st, n) = (IF n \in DOMAIN hs.cache THEN hs.cache[n] ELSE 0)
